@@ -58,7 +58,7 @@ CHECKS = {
    technique="deterministic simulation: seeded decider behind the Rng seam, reference-model (brute-force cut-rank) oracle after every step, shrinking + replay files"),
  "C19": dict(
    category="exploration",
-   text="Reproducibility of a seeded generator is a statement about different executions, i.e. exactly this technique's replay-determinism proof applied to the repo's own generators: the same (generator, parameters, seed) is built twice on fresh builders with the ambient-RNG and hash-order seams installed (any draw from rand::rng() or any randomised map during a seeded build is counted and is a violation deterministically, not with some probability), on a second OS thread, and for a fraction of runs in a fresh child process (other RandomState keys, ASLR, OS entropy), on a builder with a past (seeded again after a first batch; used before under another seed), and as a task of a worker of a rayon pool, and the objects are compared structurally. The promises are then decided by independent oracles: parameter conformance, |<shift|C|0>|^2 = 1 exactly (gate simulator in Z[omega]/2^k), squared norm exactly 1 (ZX evaluator), Pauli-gadget structure.",
+   text="Reproducibility of a seeded generator is a statement about different executions, i.e. exactly this technique's replay-determinism proof applied to the repo's own generators: the same (generator, parameters, seed) is built twice on fresh builders with the ambient-RNG and hash-order seams installed (any draw from rand::rng() or any randomised map during a seeded build is counted and is a violation deterministically, not with some probability), on a second OS thread, and for a fraction of runs in a fresh child process (other RandomState keys, ASLR, OS entropy), on a builder with a past (seeded again after a first batch; used before under another seed), and as a task of a worker of a rayon pool, and the objects are compared structurally; setters are called in varying orders and on top of an earlier configuration (a reference model of the setters says what the effective parameters are), and a sub-batch `long` builds circuits of 2^18..2^19 gates so that boundary draws of probability 2^-24 per gate occur a few times per batch. The promises are then decided by independent oracles: parameter conformance, |<shift|C|0>|^2 = 1 exactly (gate simulator in Z[omega]/2^k), squared norm exactly 1 (ZX evaluator), Pauli-gadget structure.",
    design_ref="DESIGN.md §4 C19",
    note="Trusted: gate simulator and ZX evaluator (self-tested). Admissible parameters as listed in the evidence assumptions. Known finding recorded in known_findings.json: RandomCircuitBuilder panics for qubits(1).",
    technique="deterministic simulation: cross-thread / cross-process replay diff with ambient-entropy seams counted, exact state-vector and ZX-evaluator oracles for the promises"),
